@@ -78,6 +78,11 @@ type GPlan struct {
 	KeyIDs      map[string]string `json:"key_ids"`
 	PreIDs      []PreID           `json:"pre_ids,omitempty"`
 	Runs        []GRun            `json:"runs"`
+	// KeyLabel: the handler option key_label ("": not set)
+	KeyLabel string `json:"key_label,omitempty"`
+	// ReuseHandlers: later runs whose handler list equals that of run 0 are served by the handler objects (and the
+	// agent connection) of run 0 - one RA process serving several requests
+	ReuseHandlers bool `json:"reuse_handlers,omitempty"`
 	// Enum, for C04: enumerate every single-fault placement of run 0. Only, when
 	// set, restricts the enumeration to one placement (the minimised replay).
 	Enum bool       `json:"enum,omitempty"`
@@ -205,7 +210,7 @@ func genRun(r *sim.Rng, p *GPlan, faulty bool, odd bool) GRun {
 		n := r.Range(1, 4)
 		run.Handlers = nil
 		for i := 0; i < n; i++ {
-			run.Handlers = append(run.Handlers, pick(r, []string{"regular", "stub:ok", "stub:fail", "stub:fail", "stub:panic"}))
+			run.Handlers = append(run.Handlers, pick(r, []string{"regular", "stub:ok", "stub:fail", "stub:fail", "stub:panic", "stub:fail_disabled", "stub:fail_typed"}))
 		}
 		run.StubCSRs = r.Range(0, 3)
 		run.StubKeys = r.Range(1, 3)
@@ -254,6 +259,27 @@ func genRun(r *sim.Rng, p *GPlan, faulty bool, odd bool) GRun {
 func genWorld(r *sim.Rng, odd bool, faultRate float64, maxRuns int) *GPlan {
 	p := &GPlan{}
 	p.Users = genUsers(r, r.Range(1, 4), odd)
+	lookalike := ""
+	if r.Bool(0.2) {
+		// an account whose name merely resembles a registered one and has no key file of its own
+		base := p.Users[0].Name
+		cands := []string{strings.ToUpper(base), strings.ToLower(base), strings.ToUpper(base[:1]) + base[1:], base + "2", base[:len(base)-1]}
+		for _, c := range cands {
+			taken := c == "" || strings.ContainsAny(c, "/\x00")
+			for _, u := range p.Users {
+				if u.Name == c {
+					taken = true
+				}
+			}
+			if !taken && r.Bool(0.5) {
+				lookalike = c
+				break
+			}
+		}
+		if lookalike != "" {
+			p.Users = append(p.Users, GUser{Name: lookalike, KeyKind: p.Users[0].KeyKind, Dir: "none"})
+		}
+	}
 	for _, u := range p.Users {
 		if r.Bool(0.75) {
 			p.AgentKeys = append(p.AgentKeys, u.Name)
@@ -272,9 +298,17 @@ func genWorld(r *sim.Rng, odd bool, faultRate float64, maxRuns int) *GPlan {
 		}
 		p.PreIDs = append(p.PreIDs, PreID{Kind: pick(r, []string{"plain", "cert", "ysshcert"}), Label: fmt.Sprintf("pre%d", i), Comment: c})
 	}
+	if r.Bool(0.25) {
+		p.KeyLabel = pick(r, []string{"work", "my certs", "regular", "paranoids.regular", "Paranoids", "x"})
+	}
+	p.ReuseHandlers = r.Bool(0.2)
 	n := r.Range(1, maxRuns)
 	for i := 0; i < n; i++ {
-		p.Runs = append(p.Runs, genRun(r, p, r.Bool(faultRate), odd))
+		run := genRun(r, p, r.Bool(faultRate), odd)
+		if lookalike != "" && r.Bool(0.5) {
+			run.LogName = lookalike
+		}
+		p.Runs = append(p.Runs, run)
 	}
 	return p
 }
